@@ -145,7 +145,7 @@ Print Assumptions Blocks_lines_lf_terminated.
    comment of the fourth round; the one below is the state after the third round.
    Fifth round (end of this file, Proofs/BlocksTotal5*.v): FUEL is done for the whole parse (Blocks_total_partial_no_fuel:
    parse_blocks never answers OutOfFuel, every input, every option set) and the list of what remains is a THEOREM:
-   Blocks_total_partial_ok_or_remaining — parse_blocks o x is Ok or a Panic at one of the 36 sites of
+   Blocks_total_partial_ok_or_remaining — parse_blocks o x is Ok or a Panic at one of the 35 sites of
    Blocks_total_remaining_sites_list.  The comment at the very end of this file says, site by site, which invariant
    excludes it; the lists below are the state after the third round.
    REMAINING for the full statement (no whole-parse theorem yet):
@@ -914,9 +914,11 @@ Print Assumptions Blocks_total_partial_fuel_description_list.
    (checked at each occurrence) or belongs to a leaf function that is total for all arguments (trim / ltrim / rtrim,
    unescape + shift_buf_left, unescape_html, manual_scan_link_url, table.rs row).  Intersected with the tree walk, the
    cursor walk and the fuel walk: for EVERY input byte string and EVERY option set parse_blocks answers Ok, or Panic
-   at one of the 36 sites of rem_sites (pinned verbatim below), never OutOfFuel.  strings.rs:clean_title:title[1..title_len - 1]
-   (clean_title panics on a title of length 1: StrLeaf_clean_title_refuted) is excluded locally: its only caller in the
-   block phase, parse_reference_inline, hands it the empty title or a scan_link_title match, at least 2 bytes. *)
+   at one of the 35 sites of rem_sites (pinned verbatim below), never OutOfFuel.  Two sites are excluded by a local
+   argument inside this walk: strings.rs:clean_title:title[1..title_len - 1] (clean_title panics on a title of length 1:
+   StrLeaf_clean_title_refuted; its only caller in the block phase, parse_reference_inline, hands it the empty title or
+   a scan_link_title match, at least 2 bytes) and strings.rs:line_at:bytes[end..] (split_off_front_matter starts line_at
+   at 0 and then at the `next` of the line before, which is inside the string). *)
 From V Require Proofs.BlocksTotal5Only.
 
 Theorem Blocks_total_remaining_sites_list :
@@ -953,7 +955,6 @@ Theorem Blocks_total_remaining_sites_list :
     "table.rs:try_opening_header:content.len() - 2 - header_row.paragraph_offset";
     "table.rs:try_opening_row:sourcepos.start.column + cell.start_offset - 1";
     "inlines.rs:peek_char_n:assert!(*c > 0)";
-    "strings.rs:line_at:bytes[end..]";
     "strings.rs:remove_trailing_blank_lines:line.len() - 1";
     "strings.rs:chop_trailing_hashtags:line.len() - 1";
     "strings.rs:chop_trailing_hashtags:line[n]" ].
@@ -971,11 +972,11 @@ Proof. exact BlocksTotal5Only.parse_blocks_ok_or_rem. Qed.
 Print Assumptions Blocks_total_partial_ok_or_remaining.
 
 (* ---- state after the fifth round.  PROVED for the whole parse_blocks, EVERY input byte string (valid UTF-8 or not),
-   EVERY option set: no OutOfFuel; 76 + 9 Panic sites unreachable (tree_sites, cur_sites, the sites of the leaf
+   EVERY option set: no OutOfFuel; 76 + 10 Panic sites unreachable (tree_sites, cur_sites, the sites of the leaf
    functions that are total for all arguments: strings.rs ltrim / rtrim (2), unescape (3) with shift_buf_left (1),
-   entity.rs:unescape:hex digit - 9, inlines.rs:manual_scan_link_url:input[1..i - 1], and
-   strings.rs:clean_title:title[1..title_len - 1] by a local argument; strings.rs:normalize_code:r[0] is not called by
-   the block phase); any Panic is at one of the 36 sites of rem_sites.
+   entity.rs:unescape:hex digit - 9, inlines.rs:manual_scan_link_url:input[1..i - 1], and by a local argument
+   strings.rs:clean_title:title[1..title_len - 1] and strings.rs:line_at:bytes[end..]; strings.rs:normalize_code:r[0] is
+   not called by the block phase); any Panic is at one of the 35 sites of rem_sites.
    REMAINING for Blocks_total_full_statement = exactly rem_sites.  What excludes each of them (read off the model; NOT
    proved unless said), so that a later round can pick one family, prove its own `sg (but L) ..` walk and intersect:
      open spine (4)   finalize_borrowed:assert!(ast.open), add_line:assert!(ast.open),
@@ -1009,8 +1010,6 @@ Print Assumptions Blocks_total_partial_ok_or_remaining.
                       e.g. content x LF a), |line_offsets| = number of lines of content, bi_sl >= 1, bi_sc >= 1, and
                       facts about `row` (offsets of the cells inside the string).
                       inlines.rs:peek_char_n (the assert c > 0): paragraph content is NUL-free (feed replaces NUL).
-                      strings.rs:line_at:bytes[end..]: end <= |s| in fm_line_at (scan_line_end_bounds,
-                      Proofs/BlocksTotal4Fuel.v) — local, no invariant.
      refuted leaves   remove_trailing_blank_lines (panics on the empty string only): called on the front matter (not
                       empty: it contains the delimiter) and on the content of an indented code block at finalize (not
                       empty once its first line is added: same window argument as for fenced blocks).
@@ -1022,6 +1021,10 @@ Print Assumptions Blocks_total_partial_ok_or_remaining.
                       at first_nonspace is neither space, tab nor a line end); the case offset = |line| (the ATX
                       scanner consumed the LF) is the one that needs the #.
                       clean_title: DONE in this round (local to parse_reference_inline).
+                      A site with a LOCAL argument (true for all arguments of the function that contains it or of
+                      its only caller) is removed inside Proofs/BlocksTotal5Only.v itself, no new walk: done for
+                      clean_title and line_at:bytes[end..]; candidates: content[..paragraph_offset] (row answers
+                      paragraph_offset <= |s|), remove_trailing_blank_lines on the front matter.
      UTF-8 (12)       add_line, handle_alert, handle_footnote, finalize_borrowed (info string), content[seeked..],
                       link_label, clean_url / clean_title, try_inserting_table_header_paragraph, the three
                       char-boundary slices of strings.rs front matter: boundary invariant on valid UTF-8 input (the
